@@ -243,3 +243,29 @@ vk_harness!(c06_undeclared_array_has_bound_10, {
     vk_cover!(r0 == 11, "reach: first invalid subscript");
     core::mem::forget(v);
 });
+
+//@ prop: C06
+//@ tier: quick
+//@ unwind: 12
+//@ encodes: Var::erase_array (purge of the erased array's elements by key prefix); Var::fetch
+//@ bounds: arrays A and AB with one stored element each (subscript 1) and the scalar A, values any non-zero Integers; ERASE A. Names and subscripts concrete (control skeleton), values symbolic
+vk_harness!(c06_erase_removes_only_that_array, {
+    let mut v = Var::new();
+    let (x, y, z) = (vk::any_i16(), vk::any_i16(), vk::any_i16());
+    vk::assume(x != 0 && y != 0 && z != 0);
+    v.dims.insert("A".into(), vec![10]);
+    v.dims.insert("AB".into(), vec![10]);
+    v.vars.insert("A,1,A".into(), Val::Integer(x));
+    v.vars.insert("AB,1,AB".into(), Val::Integer(y));
+    v.vars.insert("A".into(), Val::Integer(z));
+    let got = v.erase_array(&"A".into());
+    vk_check!(got.is_ok(), "C06: ERASE of a dimensioned array succeeds");
+    vk_check!(v.vars.get("A,1,A").is_none(), "C06: the erased array's elements are gone (read as 0 again)");
+    vk_check!(matches!(v.vars.get("AB,1,AB"), Some(Val::Integer(n)) if *n == y), "C06: ERASE A leaves the elements of array AB alone (distinct arrays never share storage)");
+    vk_check!(matches!(v.vars.get("A"), Some(Val::Integer(n)) if *n == z), "C06: ERASE A leaves the scalar A alone");
+    vk_check!(v.dims.get("A").is_none() && v.dims.get("AB").is_some(), "C06: only the erased array loses its dimensions");
+    let again = v.erase_array(&"A".into());
+    vk_check!(again.is_err(), "C06: erasing an array that is not dimensioned is an error");
+    vk_cover!(true, "reach: erase");
+    core::mem::forget(v);
+});
